@@ -26,7 +26,7 @@ class C17(Prop):
         W3 = multigen.parse_case_line("multi chan=ogre_arc_full_sync N=8 M=4 k=2 probe=1 ; send:1000 ; poll:1 poll:1 poll:1 poll:1 poll:1 poll:1 ; creates creates ; S 2 0 1 1 1 0 1 1 2 1 1 0 0 0 0 0 0 0 0 1 2 0 2 0 1 1 1 1 1 1 0 2 0 0 0 0 1 1 2 0 1 0 1 1 1 1 0 2 2 2 2 1 1 0 0 0 0 0 0 0 0 1 1 0 2 1 2 0 0 0 1 1 1 1 2 2 1 1 0 0 0 1 0 2 2 2 0 2 2 1 0 0 2 2 2 0 0 2 1 0 2 2 2 2 1 0 0 0 0 1 1 0 0 0 2 2 2 2 " + "0 1 2 " * 70)
         W3.meta.update({"profile": "churn", "stayers": [1], "churn_tids": [2]})
         for kind in KINDS:
-            out.append(Suite(kind, "", ([W3] if kind == "ogre_arc_full_sync" else []) + [multigen.gen_churn(rng, kind) for _ in range(m)], compare=False))
+            out.append(Suite(kind, multigen.HEADER, ([W3] if kind == "ogre_arc_full_sync" else []) + [multigen.gen_churn(rng, kind) for _ in range(m)]))
         return out
     def oracle(self, case, recs): return multigen.oracle_churn(case, recs)
     def nontrivial(self, case, recs): return multigen.nontrivial_churn(case, recs)
@@ -38,4 +38,4 @@ class C17(Prop):
             cts = [t for t, p in enumerate(progs) if any(n in ("creates", "drops") for n, a in p)]
             polled = {a[0] for t, p in enumerate(progs) if t not in cts for n, a in p if n in ("poll", "drive")}
             c.meta.update({"profile": "churn", "stayers": sorted(polled), "churn_tids": cts})
-        return Suite("replay", multigen.HEADER, cases, compare=all(c.meta["chan"] == "arc_atomic" for c in cases))
+        return Suite("replay", multigen.HEADER, cases, compare=True)
